@@ -20,7 +20,7 @@
 (***************************************************************************)
 EXTENDS Naturals, Sequences, TLC, Json
 
-Plain == {"nul", "tru", "n0", "n1", "nm1", "nbig", "nmin", "half", "nan", "inf", "es", "a", "u", "t0", "t1", "t3",
+Plain == {"nul", "tru", "n0", "n1", "nm1", "nbig", "nmax", "nmin", "rmax", "rmin", "exs", "half", "nan", "inf", "es", "a", "u", "t0", "t1", "t3",
           "l0", "l1", "l3", "m0", "m1", "r0", "r3", "rd", "it", "ex", "fn", "fn2", "fnerr", "mut", "shrink", "ml", "mk", "obj"}
 Hostile == {"sz3", "szneg", "szbig", "szstr", "szerr", "sz3i", "sz3ie", "sz0i", "itbad", "nxt", "nxterr", "nxtback", "dispbad", "cmpbad",
             "callerr", "arith", "outer", "outert", "grow", "idxmut", "acc", "tyobj"}
@@ -85,6 +85,8 @@ Unary == {
     <<"{a: $X}.a">>, <<"m = {}", "m.insert $X, 1", "m">>, <<"[$X, $X]">>, <<"($X, ($X,))">>,
     <<"1..$X">>, <<"$X..1">>, <<"$X..=$X">>, <<"$X..">>, <<"..$X">>,
     <<"n = 0", "for i in 0..$X", "  n += 1", "  if n > 3", "    break", "n">>,
+    <<"$X.to_tuple()">>, <<"x = $X", "x.next()", "x.next_back()", "x.to_list()">>, <<"($X).size()">>, <<"($X).contains 5">>,
+    <<"n = 0", "for i in $X", "  n += 1", "  if n > 3", "    break", "n">>,
     <<"$X -> size">>, <<"1 -> $X">>, <<"'a' + $X">>, <<"$X + 'a'">>, <<"export v = $X">>,
     <<"x = $X", "y = x", "x = null", "y">>, <<"f = || $X", "f()">>, <<"f = |x = $X| x", "f()">>,
     <<"switch", "  $X then 1", "  else 2">>, <<"return $X">>,
